@@ -11,7 +11,7 @@ if os.path.exists('/verif/seeded/ALSO.md'):
     for line in open('/verif/seeded/ALSO.md'):
         m = re.match(r'(C\d\d_[A-Z]):\s*(.*)', line.strip())
         if m:
-            extra[m.group(1)] = m.group(2)
+            extra[m.group(1)] = (extra.get(m.group(1), '') + '; ' if m.group(1) in extra else '') + m.group(2)
 out = ['| change | what it is (sub-agent\'s title) | own property\'s quick check | assertions that fail / note |', '|---|---|---|---|']
 n = {'YES': 0}
 tot = 0
